@@ -46,6 +46,81 @@ theorem getArgsTuple_of_bind (pos kwonly : List Name) (dflts : List (Name × Nat
           rw [hfil]
           simp [sortKw]
 
+
+/-! ## binding with `*rest` -/
+
+theorem bindV_eq_bind (v : Bool) (pos kwonly : List Name) (dflts : List (Name × Nat)) (c : Call)
+    (h : v = false ∨ c.args.length ≤ pos.length) : bindV v pos kwonly dflts c = bind pos kwonly dflts c := by
+  unfold bindV bind
+  rcases h with h | h
+  · subst h
+    by_cases h1 : pos.length < c.args.length
+    · simp [h1]
+    · have h2 : c.args.take pos.length = c.args := List.take_of_length_le (by omega)
+      have h3 : c.args.drop pos.length = [] := List.drop_of_length_le (by omega)
+      simp [h1, h2, h3]
+  · have h1 : ¬ pos.length < c.args.length := by omega
+    have h2 : c.args.take pos.length = c.args := List.take_of_length_le h
+    have h3 : c.args.drop pos.length = [] := List.drop_of_length_le h
+    simp [h1, h2, h3]
+
+/-- a call with an unexpected keyword cannot be bound, with or without `*rest` -/
+theorem bindV_unexpected (v : Bool) (pos kwonly : List Name) (dflts : List (Name × Nat)) (c : Call)
+    (h : c.kwargs.any (fun p => !(pos ++ kwonly).contains p.1) = true) : bindV v pos kwonly dflts c = none := by
+  unfold bindV
+  split
+  · rfl
+  · rfl
+
+/-- binding to a function with `*rest` = binding the named part of the call, then the overflow -/
+theorem bindV_true_eq (pos kwonly : List Name) (dflts : List (Name × Nat)) (c : Call) :
+    bindV true pos kwonly dflts c =
+      (bind pos kwonly dflts ⟨c.args.take pos.length, c.kwargs⟩).map (· ++ c.args.drop pos.length) := by
+  unfold bindV bind
+  have hlen : (c.args.take pos.length).length = min pos.length c.args.length := List.length_take
+  have ht : pos.take (min pos.length c.args.length) = pos.take c.args.length := by
+    by_cases h : pos.length ≤ c.args.length
+    · rw [Nat.min_eq_left h, List.take_of_length_le h, List.take_of_length_le (Nat.le_refl _)]
+    · rw [Nat.min_eq_right (by omega)]
+  have hd : pos.drop (min pos.length c.args.length) = pos.drop c.args.length := by
+    by_cases h : pos.length ≤ c.args.length
+    · rw [Nat.min_eq_left h, List.drop_of_length_le h, List.drop_of_length_le (Nat.le_refl _)]
+    · rw [Nat.min_eq_right (by omega)]
+  have h1 : ¬ pos.length < min pos.length c.args.length := by omega
+  simp only [Bool.not_true, Bool.false_and, Bool.false_eq_true, if_false, hlen, ht, hd, h1]
+  split
+  · rfl
+  · split
+    · rfl
+    · cases bindRest c.kwargs dflts (List.drop c.args.length pos ++ kwonly) <;> simp
+
+theorem hasPair_append (a b : Key) : hasPair (a ++ b) = (hasPair a || hasPair b) := by
+  simp [hasPair, List.any_append]
+
+theorem hasPair_map_val' (b : List Nat) : hasPair (b.map .val) = false := by
+  induction b with
+  | nil => rfl
+  | cons x xs ih => simp [hasPair]
+
+/-- the REPAIRED key is the normalised argument tuple for EVERY valid call, with or without `*rest` -/
+theorem argsKey_of_bindV (s : Sig) (pos : List Name) (c : Call) (b : List Nat)
+    (h : bindV s.varargs pos s.kwonly (kwargsDefaults s) c = some b) : argsKey s pos c = some (b.map .val) := by
+  unfold argsKey
+  cases hv : s.varargs with
+  | false =>
+    rw [hv, bindV_eq_bind false _ _ _ c (Or.inl rfl)] at h
+    simpa using getArgsTuple_of_bind pos s.kwonly (kwargsDefaults s) c b h
+  | true =>
+    rw [hv, bindV_true_eq] at h
+    cases hb : bind pos s.kwonly (kwargsDefaults s) ⟨c.args.take pos.length, c.kwargs⟩ with
+    | none => simp [hb] at h
+    | some b' =>
+      simp [hb] at h
+      subst h
+      have := getArgsTuple_of_bind pos s.kwonly (kwargsDefaults s) ⟨c.args.take pos.length, c.kwargs⟩ b' hb
+      simp only [] at this
+      simp [this]
+
 /-! ## association lists / LRUCache -/
 
 theorem lookup_none_forall {k : Key} {items : List (Key × Val)} (h : items.lookup k = none) :
@@ -845,31 +920,52 @@ theorem watchRun_ok' (mk rk : Call → Option Key) (bd : Call → Option (List N
 
 end PerInst
 
-theorem perInst_agree (s : Sig) (c : Call) (h : perInstCallOK s c = true) :
-    Agree (perInstKey s) (perInstRefKey s) (perInstBind s) c := by
-  cases hb : perInstBind s c with
+/-- the repaired key and an unexpected keyword: the key construction raises, or the key carries a `(name, value)` pair -/
+theorem argsKey_unexpected (s : Sig) (pos : List Name) (c : Call)
+    (h : c.kwargs.any (fun p => !(pos ++ s.kwonly).contains p.1) = true) :
+    argsKey s pos c = none ∨ ∃ k, argsKey s pos c = some k ∧ hasPair k = true := by
+  unfold argsKey
+  cases hv : s.varargs with
+  | false => simpa using (unexpected_keyword pos s.kwonly (kwargsDefaults s) c h).2
+  | true =>
+    have := (unexpected_keyword pos s.kwonly (kwargsDefaults s) ⟨c.args.take pos.length, c.kwargs⟩ h).2
+    simp only [] at this
+    rcases this with h2 | ⟨k, h2, h3⟩
+    · left; simp [h2]
+    · right
+      exact ⟨k ++ (c.args.drop pos.length).map .val, by simp [h2], by simp [hasPair_append, h3]⟩
+
+/-- every call that is valid (with or without `*rest`, overflow included), or whose key construction raises, or that
+    carries an unexpected keyword agrees with the reference -/
+theorem argsKey_agree (s : Sig) (pos : List Name) (c : Call)
+    (h : ((bindV s.varargs pos s.kwonly (kwargsDefaults s) c).isSome || (argsKey s pos c).isNone ||
+      c.kwargs.any (fun p => !(pos ++ s.kwonly).contains p.1)) = true) :
+    Agree (argsKey s pos) (fun c => (bindV s.varargs pos s.kwonly (kwargsDefaults s) c).map (·.map .val))
+      (bindV s.varargs pos s.kwonly (kwargsDefaults s)) c := by
+  cases hb : bindV s.varargs pos s.kwonly (kwargsDefaults s) c with
   | some b =>
     left
-    have hk : perInstKey s c = some (b.map .val) := getArgsTuple_of_bind _ _ _ c b hb
-    refine ⟨by simp [perInstRefKey, hb, hk], ?_⟩
+    have hk := argsKey_of_bindV s pos c b hb
+    refine ⟨by simp [hb, hk], ?_⟩
     intro k b' hk' _
     rw [hk] at hk'
     injection hk' with hk'
     subst hk'
-    exact hasPair_map_val b
+    exact hasPair_map_val' b
   | none =>
-    simp only [perInstCallOK, hb, Option.isSome_none, Bool.false_or, Bool.or_eq_true, Option.isNone_iff_eq_none] at h
+    simp only [hb, Option.isSome_none, Bool.false_or, Bool.or_eq_true, Option.isNone_iff_eq_none] at h
     rcases h with h | h
     · left
-      exact ⟨by simp [perInstRefKey, hb, h], by intro k b hk; rw [h] at hk; contradiction⟩
-    · obtain ⟨_, h2⟩ := unexpected_keyword (s.args.drop 1) s.kwonly (kwargsDefaults s) c h
-      rcases h2 with h2 | ⟨k, h2, h3⟩
-      · have h2' : perInstKey s c = none := h2
-        left
-        exact ⟨by simp [perInstRefKey, hb, h2'], by intro k b hk; rw [h2'] at hk; contradiction⟩
-      · have h2' : perInstKey s c = some k := h2
-        right
-        exact ⟨by simp [perInstRefKey, hb], hb, k, h2', h3⟩
+      exact ⟨by simp [hb, h], by intro k b hk; rw [h] at hk; contradiction⟩
+    · rcases argsKey_unexpected s pos c h with h2 | ⟨k, h2, h3⟩
+      · left
+        exact ⟨by simp [hb, h2], by intro k b hk; rw [h2] at hk; contradiction⟩
+      · right
+        exact ⟨by simp [hb], hb, k, h2, h3⟩
+
+theorem perInst_agree (s : Sig) (c : Call) (h : perInstCallOK s c = true) :
+    Agree (perInstKey s) (perInstRefKey s) (perInstBind s) c :=
+  argsKey_agree s (s.args.drop 1) c h
 
 /-! ## alru_cache with the default key: calls with an unexpected keyword (the same argument as for acached_per_instance) -/
 
@@ -953,30 +1049,8 @@ theorem watchRun_ok' (mk rk : Call → Option Key) (bd : Call → Option (List N
 end Alru
 
 theorem alru_agree (s : Sig) (c : Call) (h : alruCallOK s c = true) :
-    Agree (alruKey .default s) (alruRefKey .default s) (alruBind s) c := by
-  cases hb : alruBind s c with
-  | some b =>
-    left
-    have hk : alruKey .default s c = some (b.map .val) := getArgsTuple_of_bind _ _ _ c b hb
-    refine ⟨by simp [alruRefKey, hb, hk], ?_⟩
-    intro k b' hk' _
-    rw [hk] at hk'
-    injection hk' with hk'
-    subst hk'
-    exact hasPair_map_val b
-  | none =>
-    simp only [alruCallOK, hb, Option.isSome_none, Bool.false_or, Bool.or_eq_true, Option.isNone_iff_eq_none] at h
-    rcases h with h | h
-    · left
-      exact ⟨by simp [alruRefKey, hb, h], by intro k b hk; rw [h] at hk; contradiction⟩
-    · obtain ⟨_, h2⟩ := unexpected_keyword s.args s.kwonly (kwargsDefaults s) c h
-      rcases h2 with h2 | ⟨k, h2, h3⟩
-      · have h2' : alruKey .default s c = none := h2
-        left
-        exact ⟨by simp [alruRefKey, hb, h2'], by intro k b hk; rw [h2'] at hk; contradiction⟩
-      · have h2' : alruKey .default s c = some k := h2
-        right
-        exact ⟨by simp [alruRefKey, hb], hb, k, h2', h3⟩
+    Agree (alruKey .default s) (alruRefKey .default s) (alruBind s) c :=
+  argsKey_agree s s.args c h
 
 /-! ## alazy_constant -/
 
